@@ -232,6 +232,8 @@ def worker(case):
         _, base, opts, order = case
         opts = dict(opts)
         ad0 = fdesigns.BASES[base]()
+        if opts.pop("long_ids", False):
+            ad0 = fdesigns.long_identifiers(ad0)
         if opts.pop("dup_instances", False):
             ad0 = fdesigns.dup_instances(ad0)[0]
         n = c05.parse_text(edif_writer.render(ad0, **opts))
